@@ -787,6 +787,8 @@ def main():
     checksum = getattr(args, "object_checksum")
     checksum_algorithm = getattr(args, "object_checksum_algorithm")
     size = getattr(args, "object_size")
+    if size is not None:
+        size = int(size)
     formatid = getattr(args, "object_formatid")
     if formatid is None:
         formatid = default_formatid
